@@ -135,7 +135,7 @@ def run(ctx):
         'contracts/batchocr.py, CTC configuration, dense logits and the no-logits mode): the index bookkeeping of the real process_lines — the '
         'processing order is a permutation of the input positions (sorted by width), the while loop consumes it batch by batch without skipping or '
         'repeating a line, and the scatter puts at EVERY input position i the transcription and logits the network produced for image i and the '
-        'frame window [pad // sub, min((pad + width_i) // sub, frames_i)].  Four statements are replaced by their assumed effect (listed in the evidence): '
+        'frame window [pad // sub, min((pad + width_i) // sub, frames_i)]; PageOCR.process_page puts the q-th result onto the q-th line of the page (and raises iff a crop is missing).  Four statements are replaced by their assumed effect (listed in the evidence): '
         'the shape-check loop, the assembly of the zero-padded batch tensor, the crop of an over-long batch and the network call, whose assumed contract is '
         '"the i-th output depends on the i-th image only" (a network with a bounded horizontal receptive field on zero padding).  '
         'BOUNDED (covers what the proof assumes): the real BaseEngineLineOCR.process_lines is run on a subclass whose run_ocr is a local stub network '
